@@ -617,7 +617,24 @@ func (e *Engine) mapFind(m *Map, key Value) int {
 	return -1
 }
 
+// mapAccess records a read or write of the map as a whole for the race detector.
+func (e *Engine) mapAccess(m *Map, write bool) {
+	if m == nil || e.th == nil || !e.job.Threads {
+		return
+	}
+	if m.cell == nil {
+		m.cell = new(Value)
+		name := "map"
+		if m.KT != nil && m.VT != nil {
+			name = "map[" + m.KT.String() + "]" + m.VT.String()
+		}
+		e.cellName[m.cell] = name
+	}
+	e.access(m.cell, write)
+}
+
 func (e *Engine) mapSet(m *Map, key, val Value) {
+	e.mapAccess(m, true)
 	if i := e.mapFind(m, key); i >= 0 {
 		m.Vals[i] = copyVal(val)
 		return
@@ -627,6 +644,7 @@ func (e *Engine) mapSet(m *Map, key, val Value) {
 }
 
 func (e *Engine) mapDelete(m *Map, key Value) {
+	e.mapAccess(m, true)
 	if i := e.mapFind(m, key); i >= 0 {
 		m.Keys = append(append([]Value{}, m.Keys[:i]...), m.Keys[i+1:]...)
 		m.Vals = append(append([]Value{}, m.Vals[:i]...), m.Vals[i+1:]...)
@@ -639,6 +657,7 @@ func (fr *frame) lookup(in *ssa.Lookup) Value {
 	switch v := x.(type) {
 	case *Map:
 		vt := in.X.Type().Underlying().(*types.Map).Elem()
+		e.mapAccess(v, false)
 		i := e.mapFind(v, fr.get(in.Index))
 		var res Value
 		if i >= 0 {
